@@ -140,6 +140,35 @@ func checkC01(c *Ctx) {
 				}
 			}
 		}
+		// total outage of one kind of resource (every image, every stylesheet, every font,
+		// everything but the main document): combinations that single faults never reach
+		{
+			byKind := map[string][]Fault{}
+			var all []Fault
+			for _, fn := range files {
+				k := sc.Files[fn].Kind
+				if k == "" {
+					k = "other"
+				}
+				for _, fk := range []string{"err", "empty"} {
+					byKind[k+"-"+fk] = append(byKind[k+"-"+fk], Fault{At: "url:" + fn, Kind: fk})
+				}
+				all = append(all, Fault{At: "url:" + fn, Kind: "err"})
+			}
+			var ks []string
+			for k := range byKind {
+				ks = append(ks, k)
+			}
+			sort.Strings(ks)
+			for _, k := range ks {
+				if len(byKind[k]) > 1 {
+					add(ref, "outage-"+k, ref.Cfg, OrderPlan{Mode: "canon"}, byKind[k])
+				}
+			}
+			if len(all) > 1 {
+				add(ref, "outage-all", ref.Cfg, OrderPlan{Mode: "canon"}, all)
+			}
+		}
 		// presentational hints on (legacy HTML attributes enter the cascade), fault-free
 		{
 			cfg := ref.Cfg
